@@ -11,7 +11,10 @@ from lib.common import Rng, Outcome, zlit, zlist
 PROP = "C10"
 GO_PKGS = [("c10drv", True)]
 MODEL_VO = ["theories/C10/Corr.vo"]
-ALLOWED_AXIOMS = []
+# only the real-valued theorems (C10_geom_value_partial, C10_geom_twap_value_partial) use them: the standard library's reals
+# (C10_geom_twap_value_partial imports C13's Exp2 theorem, proved with Coq-Interval: primitive 63-bit integer axioms)
+ALLOWED_AXIOMS = ["ClassicalDedekindReals.sig_not_dec", "ClassicalDedekindReals.sig_forall_dec",
+                  "FunctionalExtensionality.functional_extensionality_dep", "Classical_Prop.classic", "PrimInt63.", "Uint63."]
 
 P18 = 10 ** 18
 P36 = 10 ** 36
@@ -1062,8 +1065,10 @@ SCOPE = ("partial: proved for every history and every interval inside the retent
          "(definitional integral), between min and max, geometric accumulator difference = sum log2(p_i)*dt_i exactly and result = the code's "
          "rounding of Exp2|mean| or its reciprocal when that difference is non-zero, the two quote directions share one Exp2 value, error flag, "
          "pruning invisible. Refuted (findings, witnesses in the theorem file): geometric TWAP 0 when the accumulator difference is 0 (F7); "
-         "intervals inside one millisecond panic (C10-SUBMS). Not proved: real-analysis error bound eps of the geometric mean (needs C13's "
-         "LogBase2/Exp2 bounds), absence of range-assertion panics. The per-pair theorems are lifted to the module-level model that the "
+         "intervals inside one millisecond panic (C10-SUBMS); outside that case arithmetic queries inside the window are proved to be "
+         "answered. Real-valued (standard-library real axioms): geometric TWAP = 2^(+-m) within 5.1e-8 relative + 3e-18, m = truncated "
+         "mean of the accumulated logarithms (Exp2 accuracy imported from C13 through a proved bridge). Not proved: the step from m to the "
+         "true mean of log2(price) (needs C13's LogBase2 bound), geometric queries never failing (Exp2's 2^9 exponent bound). The per-pair theorems are lifted to the module-level model that the "
          "correspondence runs (C10/Lift.v: every pair of every reachable module state has a well-formed pair history)")
 EXPLANATION = ("Gallina model of x/twap (C10/Model.v: getSpotPrices, newTwapRecord, updateRecord, recordWithUpdatedAccumulators, "
                "getInterpolatedRecord, computeTwap with both strategies, pruneRecordsBeforeTimeButNewest with its per-block limit, EndBlock, epoch "
@@ -1083,10 +1088,12 @@ ASSUMPTIONS = [
     "theorems are stated per (pool, asset pair) and lifted to the module state (EndBlock over changed pools, pruning over pools and pairs with its per-block limit) in C10/Lift.v",
 ]
 TECHNIQUE = "Coq proof over a Gallina model of x/twap; model tied to the keeper by differential correspondence on full-app histories + oracle"
-LEVEL_TEXT = ("Machine-checked theorems (Coq 8.16.1, axiom-free) over all histories of one (pool, pair) and all query intervals inside the retention "
+LEVEL_TEXT = ("Machine-checked theorems (Coq 8.16.1; axiom-free except the two real-valued ones) over all histories of one (pool, pair) and all query intervals inside the retention "
               "window: arithmetic TWAP equals the truncated definitional time-weighted mean and lies between min and max; geometric accumulator "
               "structure and result form; reciprocity of the quote directions up to the stated roundings; error flag; pruning invisibility. Two "
               "clauses of the property are refuted on the faithful model with witnesses replayed on the real chain (known findings F7, C10-SUBMS). "
               "The model is checked against the real keeper on generated full-app histories on every run.")
-LEVEL_NOTE = ("Trusted: Coq kernel (vm_compute, no native_compute), no axioms; hand-written model C10/Model.v + LogExp.v; Go driver harness/c10drv and "
-              "python glue; pool modules, SDK stores, codecs not modelled. The geometric TWAP's numerical error bound is not proved here.")
+LEVEL_NOTE = ("Trusted: Coq kernel (vm_compute, no native_compute); axioms: none for the integer theorems, the standard library's classical real "
+              "numbers (sig_not_dec, sig_forall_dec, functional_extensionality_dep, classic) for C10_geom_value_partial / C10_geom_twap_value_partial; "
+              "the latter also rests on C13's Exp2 theorem (Coq-Interval: the primitive-integer axioms PrimInt63.*, Uint63.*); hand-written model C10/Model.v + LogExp.v; Go driver harness/c10drv and "
+              "python glue; pool modules, SDK stores, codecs not modelled. The geometric TWAP's error against the true mean of log2(price) is not proved (LogBase2 bound missing).")
